@@ -1,0 +1,84 @@
+//go:build verif
+
+package badger
+
+import (
+	"sync"
+
+	"github.com/dgraph-io/badger/v4/table"
+)
+
+// Verification hooks (build tag `verif`): production code calls these at a few points; a
+// controller registered by the external harness observes them. Without a controller they
+// do nothing.
+
+// VerifCompactInfo describes one compaction as the production code ran it.
+type VerifCompactInfo struct {
+	ThisLevel, NextLevel int
+	Top, Bot             []uint64
+	DropPrefixes         [][]byte
+	Splits               int
+	New                  []uint64
+}
+
+// VerifController receives hook events.
+type VerifController struct {
+	Point      func(name string, args ...uint64)
+	CompactDef func(info *VerifCompactInfo)
+	NewTables  func(info *VerifCompactInfo)
+}
+
+var (
+	verifMu   sync.RWMutex
+	verifCtrl *VerifController
+)
+
+// VerifSetController installs (or, with nil, removes) the controller.
+func VerifSetController(c *VerifController) {
+	verifMu.Lock()
+	verifCtrl = c
+	verifMu.Unlock()
+}
+
+func verifGet() *VerifController {
+	verifMu.RLock()
+	c := verifCtrl
+	verifMu.RUnlock()
+	return c
+}
+
+func verifPoint(name string, args ...uint64) {
+	if c := verifGet(); c != nil && c.Point != nil {
+		c.Point(name, args...)
+	}
+}
+
+func verifIDs(ts []*table.Table) []uint64 {
+	out := make([]uint64, 0, len(ts))
+	for _, t := range ts {
+		out = append(out, t.ID())
+	}
+	return out
+}
+
+func verifInfo(cd *compactDef) *VerifCompactInfo {
+	return &VerifCompactInfo{
+		ThisLevel: cd.thisLevel.level, NextLevel: cd.nextLevel.level,
+		Top: verifIDs(cd.top), Bot: verifIDs(cd.bot),
+		DropPrefixes: cd.dropPrefixes, Splits: len(cd.splits),
+	}
+}
+
+func verifCompactDef(cd *compactDef) {
+	if c := verifGet(); c != nil && c.CompactDef != nil {
+		c.CompactDef(verifInfo(cd))
+	}
+}
+
+func verifNewTables(cd *compactDef, nt []*table.Table) {
+	if c := verifGet(); c != nil && c.NewTables != nil {
+		info := verifInfo(cd)
+		info.New = verifIDs(nt)
+		c.NewTables(info)
+	}
+}
